@@ -40,6 +40,30 @@ def run(ctx):
             nviol += 1
             ctx.violation("PolyglotBook::hash differs from its algorithmic model: %s -> engine %s model %s" % (f, a, c),
                           {"fen": f, "engine": a, "model": c}, key="c18alg:" + f)
+    # consecutive calls in ONE process on positions that share the pawn placement and the side to move but differ in what the key also depends
+    # on (en-passant square present / absent, castling rights, piece placement): a value memoised between two probes must not survive
+    epf = [f for f in fens if f.split()[3] != "-"][: (300 if q else 5000)]
+    hist_cases = []
+    for f in epf:
+        w = f.split()
+        noep = " ".join(w[:3] + ["-"] + w[4:])
+        nor = " ".join(w[:2] + ["-", w[3]] + w[4:])
+        for seq in ([f, noep, f], [noep, f, noep], [f, nor, noep, f]):
+            hist_cases += ["pghash " + x for x in seq]
+    hist_cases = [c for c, okv in zip(hist_cases, [True] * len(hist_cases))]
+    valid_h = set(posgen.filter_valid(model, sorted(set(c[7:] for c in hist_cases))))
+    hist_cases = [c for c in hist_cases if c[7:] in valid_h]
+    rch, h1, eh = run_lines(impl, hist_cases, shards=1)                 # one process, this order
+    rch2, h2, eh2 = run_lines(model, hist_cases, shards=NPROC)
+    for i, (c, a, b) in enumerate(zip(hist_cases, h1, h2)):
+        if a != b:
+            nviol += 1
+            if nviol <= 6:
+                ctx.violation("Polyglot key depends on the previous probe: after hashing [%s] the key of '%s' is %s, the published definition gives %s"
+                              % (" ; ".join(x[7:] for x in hist_cases[max(0, i - 2):i]), c[7:], a, b),
+                              {"sequence": [x[7:] for x in hist_cases[max(0, i - 3): i + 1]], "engine": a, "spec": b}, key="c18:hist:" + c)
+    ctx.cov["evaluations"] += len(hist_cases)
+    ctx.notes["consecutive_probe_sequences"] = len(hist_cases)
     ctx.cov["evaluations"] += len(cases)
     ctx.cov["distinct_nontrivial"] += len(fens)
     ctx.notes["positions_with_ep_square"] = nep
